@@ -24,6 +24,11 @@
 //!   down           the listening socket stops listening (shutdown; it stays bound so that no other process
 //!                  can get the port): further attempts are refused by the operating system and cannot be
 //!                  observed; the client's result is awaited for `wait` ms (terminal)
+//! Optional script field "tls": "pre" | "post" -- the client is given a wss:// URL (verification skipped) that points to a
+//! TLS-terminating relay in front of the fake server (self-signed certificate made with rcgen): every connection of the
+//! client is relayed to the fake server, whose behaviours and log stay the same.  For a `stall` step the relay with
+//! "pre" does not even answer the TLS ClientHello (the handshake stalls inside TLS), with "post" it completes TLS and the
+//! upgrade request is never answered.  Scripts with a `down` step are not run in this mode.
 //! `open`: a local connection to the client's TCP listener is made at the step's characteristic moment
 //! (refuse/rst/bad: right after the server's action; stall: right after the attempt arrived; mute /
 //! close_* / healthy: right after the handshake; down: right after the listener was closed); it sends an
@@ -123,6 +128,41 @@ async fn echo_target(listener: TcpListener) {
                     }
                 }
             }
+        });
+    }
+}
+
+/// TLS-terminating relay in front of the fake server (script field "tls")
+async fn tls_relay(listener: TcpListener, sport: u16, behs: Vec<String>, mode: String) {
+    let ck = rcgen::generate_simple_self_signed(vec!["localhost".to_string(), "127.0.0.1".to_string()]).expect("self-signed");
+    let cert = ck.cert.der().clone();
+    let key = rustls::pki_types::PrivateKeyDer::try_from(ck.signing_key.serialize_der()).expect("key der");
+    let cfg = rustls::ServerConfig::builder().with_no_client_auth().with_single_cert(vec![cert], key).expect("server config");
+    let acceptor = tokio_rustls::TlsAcceptor::from(Arc::new(cfg));
+    let mut n = 0usize;
+    loop {
+        let Ok((mut down, _)) = listener.accept().await else { continue };
+        let beh = behs.get(n).cloned().unwrap_or_default();
+        n += 1;
+        let acceptor = acceptor.clone();
+        let mode = mode.clone();
+        tokio::spawn(async move {
+            let Ok(mut up) = TcpStream::connect(("127.0.0.1", sport)).await else { return };
+            if beh == "stall" && mode == "pre" {
+                // the TLS handshake itself stalls: swallow what the client sends, answer nothing; when the client
+                // gives up the connection to the fake server is closed too
+                let mut b = [0u8; 1024];
+                loop {
+                    match down.read(&mut b).await {
+                        Ok(0) | Err(_) => break,
+                        Ok(_) => {}
+                    }
+                }
+                let _ = up.shutdown().await;
+                return;
+            }
+            let Ok(mut tls) = acceptor.accept(down).await else { return };
+            let _ = tokio::io::copy_bidirectional(&mut tls, &mut up).await;
         });
     }
 }
@@ -350,9 +390,20 @@ async fn script_main(script: &Value, log: Log) {
         l.local_addr().unwrap().port()
     };
     log.put(json!({"ev": "reset", "script": script, "ports": {"server": sport, "local": lport, "echo": eport}}));
+    let tls_mode = script["tls"].as_str().unwrap_or("").to_string();
+    let url = if tls_mode.is_empty() {
+        format!("ws://127.0.0.1:{sport}/ws")
+    } else {
+        let relay = TcpListener::bind("127.0.0.1:0").await.expect("bind tls relay");
+        let pport = relay.local_addr().unwrap().port();
+        let behs: Vec<String> = steps.iter().map(|s| s["beh"].as_str().unwrap_or("").to_string()).collect();
+        tokio::spawn(tls_relay(relay, sport, behs, tls_mode.clone()));
+        format!("wss://127.0.0.1:{pport}/ws")
+    };
 
     let args: &'static ClientArgs = Box::leak(Box::new(ClientArgs {
-        server: ServerUrl::from_str(&format!("ws://127.0.0.1:{sport}/ws")).expect("server url"),
+        server: ServerUrl::from_str(&url).expect("server url"),
+        tls_skip_verify: !tls_mode.is_empty(),
         remote: vec![Remote::from_str(&format!("127.0.0.1:{lport}:127.0.0.1:{eport}")).expect("remote")],
         keepalive: OptionalDuration::NONE,
         keepalive_timeout: OptionalDuration::NONE,
